@@ -46,6 +46,8 @@ def run(ctx):
     from . import rdb_sched
 
     rdb_sched.run_crash_part(ctx)
+    if not ctx.violations:
+        rdb_sched.run_init_crash_part(ctx)
     for t in traces[:: max(1, len(traces) // 3)][:3]:
         ctx.sample({"lock": t["lock"], "events": t["ev"][:25]})
     if not ctx.violations:
@@ -58,7 +60,7 @@ def run(ctx):
 
 
 def replay(ctx, data):
-    if data.get("replay", {}).get("family") == "rdb-crash":
+    if data.get("replay", {}).get("family") in ("rdb-crash", "rdb-init-crash"):
         from . import rdb_sched
 
         return rdb_sched.replay(ctx, data)
